@@ -83,8 +83,8 @@ func judge(s *sut, r *request, compiled, spec bool, f []string) string {
 	kind := "http"
 	if s.forTCP {
 		kind = "tcp"
-		if !compiled && spec {
-			return "" // fail-closed: less permissive than the policy is allowed on TCP
+		if !compiled && spec && s.usesHTTPOnly() {
+			return "" // fail-closed: HTTP-only fields on a TCP chain may only make the result less permissive
 		}
 	}
 	clause := "more-permissive"
